@@ -46,14 +46,14 @@ PROPS["C17"] = {
     "level": "exploration",
     "design_ref": "DESIGN.md §3 C17",
     "technique": "small-scope exhaustive execution of the real primitive against a specification model; randomized long sequences; multi-threaded stress with an offline interval checker; ThreadSanitizer; Miri",
-    "text": "The real timeout_coord primitive (both in-tree constructors, 2 and 3 voters) is executed on every sequence of vote / rescind / drop / poll up to depth 8 / 6 (10 / 7 thorough), on 200 k - 5 M random 40-call sequences and on 20 k - 400 k multi-threaded runs. Every answer is compared with a model derived from the statement: unanimity is claimed only when every party holds a vote or is gone at the same moment; it is never denied afterwards; a pending waker fires on the latching call; a parked waiter always terminates (decided logically, not by timeout). Findings are classified by whether in-tree callers can produce the sequence. Runtime level (engine rawagent, part raw-inactivity): 20 000 / 1 M conversations with the real agent runtime under a 6-25 ms (virtual) inactivity timeout, idle gaps just below, at and above it, nothing stalled: the runtime never stops less than one timeout after a lane event or a delivered command (exact under the paused clock; work in the very instant of the stop is ambiguous and skipped), and it does stop once every party has been idle for five timeouts.",
+    "text": "The real timeout_coord primitive (both in-tree constructors, 2 and 3 voters) is executed on every sequence of vote / rescind / drop / poll up to depth 8 / 6 (10 / 7 thorough), on 200 k - 5 M random 40-call sequences and on 20 k - 400 k multi-threaded runs. Every answer is compared with a model derived from the statement: unanimity is claimed only when every party holds a vote or is gone at the same moment; it is never denied afterwards; a pending waker fires on the latching call; a parked waiter always terminates (decided logically, not by timeout). Findings are classified by whether in-tree callers can produce the sequence. Runtime level (engine rawagent, part raw-inactivity): 20 000 / 1 M conversations with the real agent runtime under a 6-25 ms (virtual) inactivity timeout, idle gaps just below, at and above it, nothing stalled: the runtime never stops less than one timeout after a lane event or a delivered command (exact under the paused clock; work in the very instant of the stop is ambiguous and skipped), and it does stop once every party has been idle for five timeouts. The same two rules for the downlink runtime (engine dlrt, parts inactivity-directed / inactivity-value / inactivity-map: 122 000 / 3 M come-and-go conversations with empty_timeout 20 / 60 ms, consumers arriving just before, at and after the lone vote of one task, a final idle period of five timeouts): no inactivity stop while a served consumer is attached or less than one timeout after a consumer attached or left, and the runtime has returned by itself by the end of the final idle period.",
     "note": "Trusted base: the 60-line reference model and caller-discipline classifier in engines/vote/src/model.rs and the interval argument of the threaded checker (a call linearises inside its ticket interval). Exhaustive only up to the depth bound; concurrency is sampled (25% of threaded runs draw no tickets so that the SeqCst ticket clock does not mask weak-memory behaviour).",
-    "runs": [{"engine": "vote"}, {"engine": "rawagent"}],
+    "runs": [{"engine": "vote"}, {"engine": "rawagent"}, {"engine": "dlrt"}],
     "sanitizers": [
         {"kind": "tsan", "engine": "vote", "args": ["--scale", "0.05", "--only", "threaded"], "quick": True, "timeout_s": 1800},
         {"kind": "miri", "tier": "quick", "engine": "vote", "args": ["--scale", "0.002", "--threads", "1", "--only", "threaded"], "timeout_s": 3600},
     ],
-    "assumptions": ["a dropped voter counts as voting even if it had rescinded", "at most 3 parties (the only in-tree constructors)", "runtime level: only the agent runtime's use of the coordinator is driven end to end (the downlink runtime's use is exercised by the dlrt engine under C07); 'will see the runtime stop' is decided as bounded progress: stopped within five timeouts of virtual time"],
+    "assumptions": ["a dropped voter counts as voting even if it had rescinded", "at most 3 parties (the only in-tree constructors)", "runtime level: a task that has not noticed that its last consumer left (silent lane) has no vote outstanding, so a downlink runtime that stays up on a silent lane is not judged; 'will see the runtime stop' is decided as bounded progress: stopped within five timeouts of virtual time"],
 }
 
 _AGENT_NOTE = ("Trusted base: the harness remotes (byte-channel peers with paced/stalled/dropped readers), the lifecycle recorder of the derived agent (true lane history through on_event/on_set/on_update/on_remove/on_clear with global tickets), "
